@@ -199,6 +199,10 @@ func cliCheck(res *sched.Result, w *cliWorld) (finds []explore.Finding, outcome 
 				if !closeInvoked {
 					add("C10/bad-argument/"+cls, "%s: handler got a closed error but Close was never called; %s", name, w.logString())
 				}
+			case cls == "agent-start-error":
+				if !w.agentStartFailed {
+					add("C10/bad-argument/"+cls, "%s: handler got an agent start error that was never injected; %s", name, w.logString())
+				}
 			case cls == "ErrTransactionExists" && sc.DupIDs:
 			default:
 				add("C10/bad-argument/"+cls, "%s: handler got %v; %s", name, hr.Err, w.logString())
@@ -296,11 +300,48 @@ func cliCheck(res *sched.Result, w *cliWorld) (finds []explore.Finding, outcome 
 			add("C12/garbage-delivered", "an undecodable datagram reached a handler; %s", w.logString())
 		}
 	}
-	if sc.Sequential && !closeInvoked {
-		// every decodable datagram was read: each reached exactly one of {its transaction's handler, the fallback handler if set}
-		for di, d := range w.delivered {
-			if decodes(d) && consumed[di] == 0 && sc.Opts.Fallback {
-				add("C12/datagram-lost", "decodable datagram %x reached neither a transaction nor the fallback handler; %s", clip(d), w.logString())
+	if sc.Sequential {
+		// sequential histories: every decodable datagram delivered before any Close has been read; it must have
+		// reached the handler of the transaction that was in flight under its id, else the fallback handler (if set)
+		firstClose := len(w.log)
+		for i, r := range w.log {
+			if r.Kind == "conn-close" || r.Kind == "collector-close" {
+				firstClose = i
+				break
+			}
+		}
+		consumedBy := func(di int, inst int) bool {
+			for _, r := range w.log {
+				if r.Kind == "handler" && r.Inst == inst && r.Data != nil && bytes.Equal(r.Data, w.delivered[di]) {
+					return true
+				}
+			}
+			return false
+		}
+		for pos, r := range w.log {
+			if r.Kind != "deliver" || pos > firstClose || !decodes(w.delivered[r.N]) {
+				continue
+			}
+			inflight := -1
+			for idx, inst := range w.insts {
+				if inst.ID != r.ID || !inst.Returned || inst.RetErr != nil || inst.RetAt > pos {
+					continue
+				}
+				ended := false
+				for _, hp := range inst.HandlerAt {
+					if hp < pos {
+						ended = true
+					}
+				}
+				if !ended {
+					inflight = idx
+				}
+			}
+			switch {
+			case inflight >= 0 && !consumedBy(r.N, inflight):
+				add("C12/response-not-delivered", "a decodable %d-byte datagram with the id of the in-flight transaction #%d did not reach its handler; %s", len(w.delivered[r.N]), inflight, w.logString())
+			case inflight < 0 && sc.Opts.Fallback && consumed[r.N] == 0:
+				add("C12/datagram-lost", "a decodable datagram that matches no transaction did not reach the fallback handler: %x; %s", clip(w.delivered[r.N]), w.logString())
 			}
 		}
 	}
